@@ -368,7 +368,37 @@ impl IntField for Field128 {
     }
 }
 
-fn api_common<F: FieldBig + Encode + Decode>(ops: &[BigUint], obs: &mut Obs, hashes: Option<&dyn Fn(&F) -> u64>) -> u64 {
+/// The by-reference binary operators (the 32/64/128-bit fields have them; Field255 only has the
+/// by-value ones, which stand in).
+trait RefOps: Sized {
+    fn radd(&self, o: &Self) -> Self;
+    fn rsub(&self, o: &Self) -> Self;
+    fn rmul(&self, o: &Self) -> Self;
+}
+macro_rules! ref_ops {
+    ($($t:ty),*) => {$(impl RefOps for $t {
+        fn radd(&self, o: &Self) -> Self { self + o }
+        fn rsub(&self, o: &Self) -> Self { self - o }
+        fn rmul(&self, o: &Self) -> Self { self * o }
+    })*};
+}
+ref_ops!(FieldPrio2, Field64, Field128);
+impl RefOps for Field255 {
+    fn radd(&self, o: &Self) -> Self {
+        *self + *o
+    }
+    fn rsub(&self, o: &Self) -> Self {
+        *self - *o
+    }
+    fn rmul(&self, o: &Self) -> Self {
+        *self * *o
+    }
+}
+
+fn api_common<F: FieldBig + Encode + Decode + RefOps>(ops: &[BigUint], obs: &mut Obs, hashes: Option<&dyn Fn(&F) -> u64>) -> u64
+where
+    for<'a> &'a F: std::ops::Neg<Output = F>,
+{
     let p = F::modulus_big();
     let mut n = 0u64;
     let name = F::NAME;
@@ -408,8 +438,42 @@ fn api_common<F: FieldBig + Encode + Decode>(ops: &[BigUint], obs: &mut Obs, has
             }
         }
         check!("neg", (-a).to_big(), (&p - x) % &p, "-({x})");
+        // every form of negation gives the fully reduced element: equal (==, ct_eq, hash,
+        // encoding) to the canonical one, not merely congruent to it
+        {
+            let canon = F::from_big(&((&p - x) % &p));
+            let mut cn = a;
+            cn.conditional_negate(Choice::from(1));
+            for (form, r) in [("-x", -a), ("-&x", -&a), ("conditional_negate(1)", cn), ("0 - x", F::zero() - a), ("&0 - &x", F::zero().rsub(&a))] {
+                n += 1;
+                let same_hash = hashes.map(|h| h(&r) == h(&canon)).unwrap_or(true);
+                if r != canon || !bool::from(r.ct_eq(&canon)) || !same_hash || r.get_encoded().ok() != canon.get_encoded().ok() {
+                    obs.fail(format!("{name}-neg-form"), format!("{name}: {form} for x = {x} is not the canonical element {} (==: {}, ct_eq: {}, same hash: {same_hash}, encoding {})", (&p - x) % &p, r == canon, bool::from(r.ct_eq(&canon)), hex(&r.get_encoded().unwrap_or_default())));
+                    return n;
+                }
+            }
+        }
         for (j, y) in ops.iter().enumerate() {
             let b = els[j];
+            // by-reference and assigning forms agree with the by-value operators, as elements
+            if (i + j) % 3 == 0 {
+                let mut aa = a;
+                aa += b;
+                let mut as_ = a;
+                as_ -= b;
+                let mut am = a;
+                am *= b;
+                n += 6;
+                if a.radd(&b) != a + b || aa != a + b || a.rsub(&b) != a - b || as_ != a - b || a.rmul(&b) != a * b || am != a * b {
+                    obs.fail(format!("{name}-operator-forms"), format!("{name}: the by-reference or assigning form of +, − or × disagrees with the by-value operator for {x}, {y}"));
+                    return n;
+                }
+                let canon = F::from_big(&((x + &p - y) % &p));
+                if a - b != canon || !bool::from((a - b).ct_eq(&canon)) {
+                    obs.fail(format!("{name}-eq-after-sub"), format!("{name}: {x} - {y} has the right encoding but is not == to the canonical element"));
+                    return n;
+                }
+            }
             check!("add", (a + b).to_big(), (x + y) % &p, "{x} + {y}");
             check!("sub", (a - b).to_big(), (x + &p - y) % &p, "{x} - {y}");
             check!("mul", (a * b).to_big(), (x * y) % &p, "{x} * {y}");
@@ -546,7 +610,7 @@ where
                 }
             }
         }
-        if i % 3 == 0 {
+        if i % 3 == 0 || x.is_zero() || x.is_one() || *x == &p - 1u32 {
             for e in &exps {
                 let ei: F::Integer = IntConv::from_u128_lossy(*e);
                 let got = a.pow(ei).to_big();
